@@ -335,12 +335,13 @@ PROPS["C12"] = {
 
 PROPS["C08"] = {
     "title": "Curve fitting returns a connected chain within the error bound",
-    "gen_modules": ["Basis", "Fit"],
-    "props_modules": ["C08", "C08Error", "C08Cubic", "C08Term"],
+    "gen_modules": ["Basis", "Fit", "Walk", "Normal", "FitKernel", "Total"],
+    "props_modules": ["C08", "C08Error", "C08Cubic", "C08Term", "C08Kernel"],
     "corr_n": (3000, 60000),
     "search_n": (300, 6000),
-    "technique": "Lean 4 theorems about fit_curve's block loop, max_points_to_fit, fit_line and newton_raphson_root_find translated from fit.rs on every run, and about a recursion skeleton of fit_curve_cubic "
-                 "+ exact correspondence of the block structure + search on the real code",
+    "technique": "Lean 4 theorems about the WHOLE of fit.rs translated on every run (fit_curve's block loop, max_points_to_fit, fit_curve_cubic's body, fit_line, chords_for_points, generate_bezier, reparameterize, "
+                 "newton_raphson_root_find, max_error_for_curve, tangent_between, start/end_tangent; only the two self-calls of fit_curve_cubic are tied by hand, with a depth) "
+                 "+ bit-exact Float correspondence of the generated fitter with the real fit_curve / fit_curve_cubic + search on the real code",
     "level_text": "Partial. For every number of points: fit_curve returns None exactly for fewer than 2 points (fit_curve_none_iff); the block size is in [50,200] (max_points_to_fit_range/_spec, the loop's fuel "
                   "is never exhausted); fit_curve is the concatenation of the fits of its blocks (fit_curve_blocks); the blocks start at point 0, each starts at the last point of the previous one, "
                   "the last ends at the last point (blocks_cover, fit_curve_blocks_cover - the invariant whose violation was defect F3); hence fit_curve returns a connected chain from the first to the last "
@@ -359,10 +360,20 @@ PROPS["C08"] = {
                   "(max_error_pick_index), so if the first and last sample have error 0 (fit_point_error_at_hit; their parameters 0 and 1 are kept by newton_fixed_at_ends_*) a candidate that is not within "
                   "the tolerance >= 0 is split at 1 <= i, i + 1 < n. body_eq / bodyState_inv: the generated body is line | bodyFinish(bodyState), the state being (parameters, the curve generated from them, "
                   "that curve's measured error and index). "
+                  "THE KERNEL IS GENERATED TOO (Props/C08Kernel, Gen/FitKernel): generated_fit_within_error - for every list of 2-D points without two equal consecutive points, every contiguous slice, tangents and "
+                  "tolerance, EVERY POINT IS WITHIN THE (clamped) TOLERANCE OF ONE OF THE RETURNED CURVES AT A PARAMETER IN [0,1] (the first clause of the property, in exact arithmetic, nothing left as a parameter); "
+                  "generated_fit_chain - the same fitter never uses up depth points.length and returns a connected chain from the first to the last point (cubicKnot_chain_inv: the chain theorem with an invariant on "
+                  "the parameter list); chords_for_points_spec (one parameter per point, first 0, last 1, all in [0,1]); reparameterize_inv (kept by re-parameterisation about any curve from the first to the last "
+                  "point); generate_bezier_ends / generate_bezier_spec (curve from first to last point, inner control points on the tangent rays at non-negative distances which solve the normal equations C.alpha = X "
+                  "of the accumulated sums when the determinant and Wu/Barsky tests pass, else a third of the end-point distance); generated_split (a rejected candidate is split at an interior point); "
+                  "fitCubicGen_eq_cubicKnot (what the driver runs bit-exactly against the real code is the object of the theorems). Repeated consecutive points (0/0 in chords_for_points: NaN in IEEE, 0 in a field) "
+                  "are outside these theorems: covered by the bit-exact mirror (identical / repeated point classes) and C20. "
                   "NOT proved: the quality of generate_bezier's least squares (how often a candidate is accepted, i.e. how many "
                   "curves are returned); the search checks every sample within max_error of the chain by dense sampling + refinement, chain connected bit-exactly, ends exact.",
-    "level_note": "fit_curve_cubic's numeric kernel (generate_bezier, chords_for_points, reparameterize, tangent_between) is a parameter of the theorems; Model/Fit.lean's skeleton is kept for the chain theorems. " + COMMON_NOTE,
-    "rule": "corr: number of points 0..5000 (all small n, random large n): (start, length) of every block the implementation fits (observed through the joints of the returned chain for a fitter-independent "
+    "level_note": "Since round 5 the numeric kernel of fit_curve_cubic is generated (Gen/FitKernel) and no longer a parameter: C08Kernel instantiates the generic theorems with it at Curve<Coord2>; Model/Fit.lean's skeleton is kept "
+                  "for the older chain theorems. The knot Model/FitKernel.fitCubicGen (6 lines) is hand-written. " + COMMON_NOTE,
+    "rule": "corr: fit (fit_curve) and cubic (fit_curve_cubic with arbitrary tangents): every control point of every returned curve, bit for bit, against the generated fitter at Float, on the search "
+            "generator's inputs (all sources, noise, repeated and identical points, 0..3 points, block boundaries, max_error 0, negative, 1e-3..2). blocks: number of points 0..5000 (all small n, random large n): (start, length) of every block the implementation fits (observed through the joints of the returned chain for a fitter-independent "
             "polyline input) vs the generated loop. search: sample sets from lines, arcs, noisy curves, duplicates, collinear runs, 2..2000 points, max_error 0.01..10: chain connectivity, end points, "
             "sample distance. Non-trivial: more than one curve returned; distinct by input.",
     "trusted_base": ["Model/Fit.lean: recursion skeleton of fit_curve_cubic (accept/split policy abstract)"],
